@@ -151,6 +151,7 @@ func c20(r *core.Report) {
 	c20Gate(r)
 	c20Inv(r)
 	c20PathRef(r)
+	c20WrapperMarshal(r)
 	c20TypedNil(r)
 	resetScope(r, "C20.resetscope")
 	crashPanic(r, csAll, map[string]panicExcuse{
@@ -1072,6 +1073,53 @@ func c20PathRef(r *core.Report) {
 		}
 		if n == 0 {
 			r.Trivial("pathref:none", "-", "no code outside the decoders and the loader clears a path item's Ref")
+		}
+	})
+}
+
+// c20WrapperMarshal: a document that was decoded without the loader (json.Unmarshal into a T) can
+// hold a wrapper with neither reference nor value: `null` at a reference position. Serialising it
+// must not dereference the missing value.
+func c20WrapperMarshal(r *core.Report) {
+	p := r.Prog
+	info := p.Pkg("openapi3").TypesInfo
+	r.RunRule("C20.wrappermarshal", "serialising a reference wrapper does not dereference a missing value: in the MarshalYAML of every reference wrapper, the call of a method on x.Value stands where x.Value was tested non-nil (an early `if x.Value == nil { return nil, nil }`)", 9, func() {
+		for _, n := range p.ModelTypes("openapi3", "T") {
+			if _, isW := core.IsRefWrapper(n); !isW {
+				continue
+			}
+			m := core.HasMethod(n, "MarshalYAML")
+			if m == nil {
+				continue
+			}
+			fd := p.Decl(m)
+			k := 0
+			ast.Inspect(fd.Body, func(nd ast.Node) bool {
+				c, ok := nd.(*ast.CallExpr)
+				if !ok {
+					return true
+				}
+				sel, ok := ast.Unparen(c.Fun).(*ast.SelectorExpr)
+				if !ok {
+					return true
+				}
+				vs, ok := ast.Unparen(sel.X).(*ast.SelectorExpr)
+				if !ok || vs.Sel.Name != "Value" {
+					return true
+				}
+				k++
+				key := fmt.Sprintf("wrappermarshal:%s#%d", n.Obj().Name(), k)
+				good := false
+				for _, a := range core.Atoms(core.GuardsAt(info, fd.Body, c)) {
+					if be, ok := ast.Unparen(a.Expr).(*ast.BinaryExpr); ok && core.IsNil(info, be.Y) && core.ExprStr(be.X) == core.ExprStr(vs) {
+						if (be.Op == token.NEQ && a.Pos) || (be.Op == token.EQL && !a.Pos) {
+							good = true
+						}
+					}
+				}
+				r.Check(good, key, p.Pos(c.Pos()), "Value tested non-nil first", n.Obj().Name()+".MarshalYAML calls "+sel.Sel.Name+" on x.Value without a nil test: a wrapper decoded from `null` (no reference, no value) makes json.Marshal / yaml.Marshal of the document panic")
+				return true
+			})
 		}
 	})
 }
